@@ -23,6 +23,9 @@ var (
 	removeGEREventSignature = crypto.Keccak256Hash([]byte("UpdateRemovalHashChainValue(bytes32,bytes32)"))
 )
 
+// maxBlocksPerEventsQuery is the maximum number of blocks covered by a single events query
+const maxBlocksPerEventsQuery = uint64(1000)
+
 type downloaderPP struct {
 	*sync.EVMDownloaderImplementation
 	l2GERManager   *globalexitrootmanagerl2sovereignchain.Globalexitrootmanagerl2sovereignchain
@@ -79,6 +82,13 @@ func (d *downloaderPP) RuntimeData(ctx context.Context) (sync.RuntimeData, error
 }
 
 func (d *downloaderPP) Download(ctx context.Context, fromBlock uint64, downloadedCh chan sync.EVMBlock) {
+	// lastFetchedBlock is the last block whose events have already been fetched
+	// (fromBlock is the first block that has not been processed yet)
+	lastFetchedBlock := fromBlock
+	if lastFetchedBlock > 0 {
+		lastFetchedBlock--
+	}
+
 	for {
 		select {
 		case <-ctx.Done():
@@ -90,9 +100,16 @@ func (d *downloaderPP) Download(ctx context.Context, fromBlock uint64, downloade
 		}
 
 		// Wait for new blocks before processing
-		fromBlock = d.WaitForNewBlocks(ctx, fromBlock)
-		for _, block := range d.GetEventsByBlockRange(ctx, fromBlock, fromBlock) {
-			downloadedCh <- *block
+		latestBlock := d.WaitForNewBlocks(ctx, lastFetchedBlock)
+
+		// Fetch the events of every block produced since the last fetch (not only the latest one),
+		// in bounded ranges
+		for lastFetchedBlock < latestBlock && ctx.Err() == nil {
+			toBlock := min(lastFetchedBlock+maxBlocksPerEventsQuery, latestBlock)
+			for _, block := range d.GetEventsByBlockRange(ctx, lastFetchedBlock+1, toBlock) {
+				downloadedCh <- *block
+			}
+			lastFetchedBlock = toBlock
 		}
 	}
 }
